@@ -86,6 +86,8 @@ def impl_oracle(c):
     op = c["op"]
     if op == "file":
         return J.file_oracle(c)
+    if op in ("tseries", "stream") and o.get("note"):
+        return ("value-and-error" if "together" in o["note"] else "decoder"), "%s: %s" % (op, o["note"])
     if op in ("tojson", "series", "shell") and o.get("note"):
         return "value-and-error", "%s: %s" % (op, o["note"])
     if op == "tojson" and o.get("ok") and o.get("out") is None and not o.get("outhex"):
@@ -155,7 +157,9 @@ def run(ck):
              "comma, no operand, bad object entry, sign without number, missing separator, lexing errors, unknown type) "
              "followed by each kind of truncated tail; every prefix of 12 documents; single-token deletions and insertions; all "
              "token sequences of length <= 3 over a 16/12/8-symbol alphabet rendered to text; seeded (splitmix64) "
-             "malformed bytes, invalid UTF-8, mutated documents, generated valid documents and their cuts; command "
+             "malformed bytes, invalid UTF-8, mutated documents, generated valid documents and their cuts; sequences of "
+             "0-4 values read by one Decoder (for More() { Decode }) and their cuts; typed series decoded into real "
+             "struct types (unknown fields, type mismatches, unknown types) and their cuts; command "
              "lines. Each input is run through DecodeSeries / Unmarshal / ToJSON / the token chain / strtoken.Parse. "
              "A case is trivial if its input is empty; distinct = distinct (operation, input bytes).",
         assumptions=["the io.Reader given to the lexer does not fail (inputs are byte slices / strings)",
